@@ -181,8 +181,70 @@ func (o storeOp) line() string {
 		return o.kind + " " + hb
 	case "visitk":
 		return fmt.Sprintf("visitk %d", o.id)
+	case "addfail":
+		return fmt.Sprintf("addfail %s variant=%d (implementation only: a delivery whose source cannot be opened / breaks off after %d bytes)", hb, o.id, len(o.body)/2)
 	}
 	return o.kind
+}
+
+// failingMsg is a delivery whose content cannot be read: Source() fails (variant 0) or the reader breaks off half-way (variant 1).
+type failingMsg struct {
+	*message.Delivery
+	variant int
+	body    []byte
+}
+
+type brokenReader struct {
+	r    io.Reader
+	left int
+}
+
+func (b *brokenReader) Read(p []byte) (int, error) {
+	if b.left <= 0 {
+		return 0, fmt.Errorf("verif: the source broke off")
+	}
+	if len(p) > b.left {
+		p = p[:b.left]
+	}
+	n, err := b.r.Read(p)
+	b.left -= n
+	if err == io.EOF {
+		err = fmt.Errorf("verif: the source broke off")
+	}
+	return n, err
+}
+func (b *brokenReader) Close() error { return nil }
+
+func (f *failingMsg) Source() (io.ReadCloser, error) {
+	if f.variant == 0 {
+		return nil, fmt.Errorf("verif: the source cannot be opened")
+	}
+	return &brokenReader{r: bytes.NewReader(f.body), left: len(f.body) / 2}, nil
+}
+
+// applyFail: a delivery that must fail; returns the class of the answer
+func (b *backend) applyFail(o storeOp) (out string) {
+	defer func() {
+		if r := recover(); r != nil {
+			out = fmt.Sprintf("panic:%v", r)
+		}
+	}()
+	d := &message.Delivery{Meta: event.MessageMetadata{Mailbox: o.box, From: &mail.Address{Address: o.from}, Date: time.Unix(o.date, 0), Subject: o.subj}}
+	id, err := b.st.AddMessage(&failingMsg{Delivery: d, variant: o.id, body: o.body})
+	if err == nil {
+		return "stored-as:" + id
+	}
+	return "err"
+}
+
+// dumpAll: every mailbox of the history as its listing shows it (ids as ranks, flags, sizes, content)
+func (b *backend) dumpAll(names []string) string {
+	var sb strings.Builder
+	for _, nm := range names {
+		ms, err := b.st.GetMessages(nm)
+		sb.WriteString(core.HexS(nm) + "=" + errClass(err) + encImplList(b, ms) + ";")
+	}
+	return sb.String()
 }
 
 func errClass(err error) string {
@@ -455,8 +517,17 @@ func genHistory(r *rand.Rand, p storeProfile, names []string, nOps int) []storeO
 			if r.Intn(12) == 0 { // boundary instants: the zero time.Time, the Unix epoch and its neighbours, before 1970, the year 9999
 				opDate = []int64{-62135596800, 0, 1, -1, -86400 * 365 * 30, 253402300799}[r.Intn(6)]
 			}
-			ops = append(ops, storeOp{kind: "add", box: box, body: genBody(r, r.Intn(100) < p.bigPct), from: fmt.Sprintf("s%d@src.net", r.Intn(5)), to: to,
+			body := genBody(r, r.Intn(100) < p.bigPct)
+			if r.Intn(25) == 0 {
+				body = []byte{} // a message without content is a message
+			}
+			ops = append(ops, storeOp{kind: "add", box: box, body: body, from: fmt.Sprintf("s%d@src.net", r.Intn(5)), to: to,
 				subj: fmt.Sprintf("subj %d é", r.Intn(1000)), date: opDate})
+			if r.Intn(14) == 0 {
+				// a delivery that fails: it must leave every mailbox as it was (variant 1, the source breaking off half-way, only where no
+				// cap eviction can precede the copy)
+				ops = append(ops, storeOp{kind: "addfail", box: names[r.Intn(len(names))], id: r.Intn(2), body: genBody(r, false), from: "s@src.net", subj: "never stored", date: date})
+			}
 		case x < 52:
 			id := pickID()
 			if r.Intn(8) == 0 && id < 9000 {
@@ -587,6 +658,25 @@ func runStoreHistory(c *core.Ctx, m *core.Model, r *rand.Rand, p storeProfile, h
 	var arrival []live // memory store: global arrival order of live messages (maintained from the store's own answers)
 	for _, o := range ops {
 		line := o.line()
+		if o.kind == "addfail" {
+			if o.id == 1 && cap > 0 {
+				o.id = 0
+				line = o.line()
+			}
+			trace = append(trace, line)
+			c.H(fmt.Sprintf("op:addfail-variant-%d", o.id))
+			for _, be := range []*backend{bm, bf} {
+				before := be.dumpAll(names)
+				res := be.applyFail(o)
+				after := be.dumpAll(names)
+				c.Compared(1)
+				if res != "err" || before != after {
+					c.Fail("failed-delivery-changes-nothing", append([]string{}, trace...), fmt.Sprintf("%s store: a delivery whose source could not be read answered %q; mailboxes before: %s  after: %s", be.kind, res, trunc(before, 600), trunc(after, 600)), "")
+					return
+				}
+			}
+			continue
+		}
 		trace = append(trace, line)
 		ans := "ok"
 		if o.kind != "reopen" {
